@@ -606,7 +606,10 @@ register(
     "C06",
     families=[("guards_sync", 3, gen_core("sync", 81, **_C06)), ("guards_async", 3, gen_core("async", 82, **_C06)),
               ("guards_nomissing_sync", 2, gen_core("sync", 83, w_missing_guard=0.0, **_C06)),
-              ("guards_always_sync", 1, gen_core("sync", 84, **dict(_C06, p_always=0.15)))],
+              ("guards_always_sync", 1, gen_core("sync", 84, **dict(_C06, p_always=0.15))),
+              # guards (also raising ones) on after candidates and on invoke onDone / onError lists
+              ("guards_timers_services_sync", 2, gen_core("sync", 85, ops_kw={"p_adv": 0.3}, **dict(_C06, p_after=0.35, p_after_two=0.5, p_invoke=0.3, svc_kinds=("sync",)))),
+              ("guards_timers_services_async", 2, gen_core("async", 86, ops_kw={"p_adv": 0.3}, **dict(_C06, p_after=0.35, p_after_two=0.5, p_invoke=0.3, svc_kinds=("coro", "sync"))))],
     oracle=O.oracle_c06,
     stats=O.stats_c06,
     level="exploration",
